@@ -827,12 +827,17 @@ class Interp:
         return self.e_ListComp(node, fr)
 
     def e_DictComp(self, node, fr):
+        first = self.eval(node.generators[0].iter, fr)
+        if isinstance(first, Model) and hasattr(first, "dict_comprehension"):
+            if len(node.generators) != 1:
+                self.unsupported(node, "nested dict comprehension over a model")
+            return first.dict_comprehension(self, node, node.generators[0], fr)
         out = {}
 
         def add(f):
             out[self.eval(node.key, f)] = self.eval(node.value, f)
 
-        self._comp(node.generators, 0, fr, add, self.eval(node.generators[0].iter, fr))
+        self._comp(node.generators, 0, fr, add, first)
         return out
 
     def _comp(self, gens, i, fr, emit, first=None):
